@@ -143,7 +143,7 @@ def build(rnd, rnd2=None):
             br = WishboneCSRBridge(cbus, data_width=wdw, name=None if rnd.random() < .4 else f"csr{i}")
             sub = br.wb_bus
             m.submodules[f"wbbr{i}"] = br
-            leafdesc = ("bridge", d)
+            leafdesc = ("bridge", d, br)
         if rnd2.random() < .1:
             Fragment.get(root, None)                 # the root decoder was already elaborated once before this add()
         try:
